@@ -247,7 +247,14 @@ pub fn random_state_case<T: Sc>(rng: &mut Rng, thorough: bool, idx: usize) -> St
         1
     };
     let exact = idx % 10 < 2;
-    let y = random_data::<T>(rng, &recipe, s, exact);
+    let mut y = random_data::<T>(rng, &recipe, s, exact);
+    // one case in sixteen: observations of extreme magnitude (powers of two, so that the scaling is
+    // exact): everything is linear in the data, only squares of norms are at risk
+    if idx % 16 == 9 {
+        let e: i32 = if T::WIDTH == 32 { *rng.pick(&[-50, 50]) } else { *rng.pick(&[-465, 465, -100, 100]) };
+        let f = T::of(2f64.powi(e));
+        y = y.map(|v| v * f);
+    }
     let wkind = WKINDS[idx % WKINDS.len()];
     let w = random_weights(rng, wkind, recipe.n(), recipe.m()).map(|w| w.iter().map(|v| T::of(*v)).collect());
     let eps = match idx % 7 {
